@@ -104,6 +104,51 @@ pub broadcast proof fn lemma_cover_is_exact(r: Seq<&String>, s: Set<String>)
     }
 }
 
+// a finite map with pairwise different values has as many values as keys (proved)
+pub proof fn lemma_inj_values_len<K, V>(m: Map<K, V>)
+    requires forall|k1: K, k2: K| m.contains_key(k1) && m.contains_key(k2) && k1 != k2 ==> m[k1] != m[k2],
+    ensures m.values().len() == m.dom().len(),
+    decreases m.dom().len(),
+{
+    if m.dom().len() == 0 {
+        assert(m.dom() =~= Set::<K>::empty());
+        assert(m.values() =~= Set::<V>::empty()) by {
+            assert forall|v: V| !m.values().contains(v) by {
+                if m.values().contains(v) { let k = choose|k: K| m.contains_key(k) && m[k] == v; assert(m.dom().contains(k)); }
+            }
+        }
+    } else {
+        let k = m.dom().choose();
+        let m2 = m.remove(k);
+        assert(m2.dom() =~= m.dom().remove(k));
+        lemma_inj_values_len(m2);
+        assert(!m2.values().contains(m[k])) by {
+            if m2.values().contains(m[k]) { let k2 = choose|k2: K| m2.contains_key(k2) && m2[k2] == m[k]; assert(m.contains_key(k2) && k2 != k); }
+        }
+        assert(m.values() =~= m2.values().insert(m[k])) by {
+            assert forall|v: V| m.values().contains(v) <==> m2.values().insert(m[k]).contains(v) by {
+                if m.values().contains(v) { let kk = choose|kk: K| m.contains_key(kk) && m[kk] == v; if kk != k { assert(m2.contains_key(kk) && m2[kk] == v); } }
+                if m2.values().contains(v) { let kk = choose|kk: K| m2.contains_key(kk) && m2[kk] == v; assert(m.contains_key(kk) && m[kk] == v); }
+                if v == m[k] { assert(m.contains_key(k)); }
+            }
+        }
+    }
+}
+// a sequence of length |S| that covers the finite set S has no duplicates and contains only members of S
+pub proof fn lemma_pigeon<A>(vals: Seq<A>, s: Set<A>)
+    requires vals.len() == s.len(), forall|a: A| s.contains(a) ==> vals.contains(a),
+    ensures vals.no_duplicates(), forall|i: int| 0 <= i < vals.len() ==> s.contains(#[trigger] vals[i]),
+{
+    vals.lemma_cardinality_of_set();
+    assert(s.subset_of(vals.to_set())) by {
+        assert forall|a: A| s.contains(a) implies vals.to_set().contains(a) by { assert(vals.contains(a)); }
+    }
+    vstd::set_lib::lemma_len_subset(s, vals.to_set());
+    vstd::set_lib::lemma_subset_equality(s, vals.to_set());
+    vals.lemma_no_dup_set_cardinality();
+    assert forall|i: int| 0 <= i < vals.len() implies s.contains(#[trigger] vals[i]) by { assert(vals.to_set().contains(vals[i])); }
+}
+
 pub proof fn lemma_nodup_subset_full(order: Seq<String>, members: Set<String>)
     requires order.no_duplicates(), order.len() == members.len(),
         forall|i: int| 0 <= i < order.len() ==> members.contains(#[trigger] order[i]),
